@@ -1,6 +1,8 @@
 package shield
 
 import (
+	"sort"
+
 	"github.com/simimpact/srsim/pkg/engine/event"
 	"github.com/simimpact/srsim/pkg/engine/info"
 	"github.com/simimpact/srsim/pkg/engine/prop"
@@ -17,7 +19,15 @@ func (mgr *Manager) AddShield(id key.Shield, shield info.Shield) {
 	// Compute shield baseHP from ShieldMap property values
 	baseHP := 0.0
 
-	for k, v := range shield.BaseShield {
+	// sum the terms in ascending formula order: float addition is not associative, so the
+	// (random) iteration order of the map must not reach the result
+	formulas := make([]model.ShieldFormula, 0, len(shield.BaseShield))
+	for k := range shield.BaseShield {
+		formulas = append(formulas, k)
+	}
+	sort.Slice(formulas, func(i, j int) bool { return formulas[i] < formulas[j] })
+	for _, k := range formulas {
+		v := shield.BaseShield[k]
 		switch k {
 		case model.ShieldFormula_SHIELD_BY_SHIELDER_ATK:
 			baseHP += v * source.ATK()
